@@ -1,2 +1,5 @@
 import GoframeModel.Props.C01
 #print axioms Goframe.C01.nrows_any_column
+#print axioms Goframe.C01.step_good
+#print axioms Goframe.C01.reach_good
+#print axioms Goframe.C01.appendRow_pinned_ragged
